@@ -892,7 +892,8 @@ impl<K: KeyT, V: ValT> World<K, V> {
                 }
             })
             .collect();
-        let vids: Vec<Value> = vals.iter().map(|v| json!(v.as_ref().map_or(0, |v| v.id()))).collect();
+        let mut vids: Vec<Value> = vals.iter().map(|v| json!(v.as_ref().map_or(0, |v| v.id()))).collect();
+        let dvids: std::cell::RefCell<Vec<(usize, u32)>> = std::cell::RefCell::new(Vec::new());
         let mut obs: Vec<Value> = Vec::new();
         enum Cur<'a, K, V> {
             E(Entry<'a, K, V, HB>),
@@ -935,6 +936,16 @@ impl<K: KeyT, V: ValT> World<K, V> {
                             tick(CLOSURE, 0);
                             vv
                         });
+                        Cur::R(r)
+                    }
+                    (Cur::E(e), "or_default") => {
+                        // the value object (if any) is created inside the map: its id is only known afterwards
+                        let occ = matches!(e, Entry::Occupied(_));
+                        let r = e.or_default();
+                        if !occ {
+                            let id = r.id();
+                            q!(dvids.borrow_mut().push((i, id)));
+                        }
                         Cur::R(r)
                     }
                     (Cur::E(e), "or_insert_with_key") => {
@@ -1092,7 +1103,12 @@ impl<K: KeyT, V: ValT> World<K, V> {
             json!({"t":"unit"}),
             vec![
                 ("kid", json!(kid)),
-                ("vids", Value::Array(vids)),
+                ("vids", Value::Array({
+                    for (i, id) in dvids.borrow().iter() {
+                        vids[*i] = json!(*id);
+                    }
+                    vids
+                })),
                 ("obs", Value::Array(obs)),
                 ("unused", Value::Array(unused)),
             ],
@@ -1204,6 +1220,11 @@ impl<K: KeyT, V: ValT> World<K, V> {
                     (Cur::O(oe), "o_key") => {
                         seto!("k", oe.key().k());
                         seto!("kid", oe.key().id());
+                        Cur::O(oe)
+                    }
+                    (Cur::O(mut oe), "o_key_mut") => {
+                        seto!("k", oe.key_mut().k());
+                        seto!("kid", oe.key_mut().id());
                         Cur::O(oe)
                     }
                     (Cur::O(oe), "o_get") => {
